@@ -51,6 +51,15 @@ fn project(book: &umya::Spreadsheet) -> Value {
             }
         }
     }
+    // (the same holds for the style of a row or column record)
+    let eff = |st: &umya::Style| -> String {
+        let f = world::style_fp(st);
+        if f == dflt {
+            String::new()
+        } else {
+            f
+        }
+    };
     // row and column dimensions that carry a setting
     let dims: Vec<Value> = book
         .get_sheet_collection_no_check()
@@ -59,8 +68,8 @@ fn project(book: &umya::Spreadsheet) -> Value {
             let mut rows: Vec<Value> = ws
                 .get_row_dimensions()
                 .iter()
-                .filter(|r| *r.get_height() != 0.0 || *r.get_hidden() || *r.get_thick_bot() || *r.get_custom_height() || !world::style_fp(r.get_style()).is_empty())
-                .map(|r| json!([r.get_row_num(), r.get_height(), r.get_custom_height(), r.get_hidden(), r.get_thick_bot(), world::style_fp(r.get_style())]))
+                .filter(|r| *r.get_height() != 0.0 || *r.get_hidden() || *r.get_thick_bot() || *r.get_custom_height() || !eff(r.get_style()).is_empty())
+                .map(|r| json!([r.get_row_num(), r.get_height(), r.get_custom_height(), r.get_hidden(), r.get_thick_bot(), eff(r.get_style())]))
                 .collect();
             rows.sort_by_key(|x| x[0].as_u64());
             // get_cell_mut materialises a column dimension with the library's default width (8.38) for the
@@ -68,8 +77,8 @@ fn project(book: &umya::Spreadsheet) -> Value {
             let mut cols: Vec<Value> = ws
                 .get_column_dimensions()
                 .iter()
-                .filter(|c| *c.get_width() != 8.38 || *c.get_hidden() || !world::style_fp(c.get_style()).is_empty())
-                .map(|c| json!([c.get_col_num(), c.get_width(), c.get_hidden(), world::style_fp(c.get_style())]))
+                .filter(|c| *c.get_width() != 8.38 || *c.get_hidden() || !eff(c.get_style()).is_empty())
+                .map(|c| json!([c.get_col_num(), c.get_width(), c.get_hidden(), eff(c.get_style())]))
                 .collect();
             cols.sort_by_key(|x| x[0].as_u64());
             // tables with everything they carry (columns, totals row label/function, style info)
@@ -211,6 +220,7 @@ pub fn execute(case: &Value, _scratch: &str) -> Outcome {
             }
         }
     } else {
+        c06::count_ops(case, &mut out);
         match guarded(|| world::save_mem(&c06::build(case), false)) {
             Ok(Ok(b)) => b,
             _ => {
@@ -413,7 +423,7 @@ pub fn cases(run_seed: u64, tier: &str, _scratch: &str) -> Vec<Value> {
         if tier != "thorough" {
             for _ in 0..20 {
                 let len = std::fs::metadata(format!("{}/{}", c11::corpus_dir(), f)).map(|m| m.len()).unwrap_or(0);
-                if len <= 200_000 {
+                if len <= 300_000 {
                     break;
                 }
                 f = files[sw.usize(files.len())].clone();
